@@ -186,8 +186,8 @@ def check_joins(prop, tier, replay):
     return res.finish()
 
 
-TYPED_CLASSES = {"typed-package-deviates", "typed-request-path", "typed-request-query", "typed-list-incomplete", "typed-request-count", "typed-readiness-differs", "typed-lifecycle-differs",
-                 "typed-returns-foreign-object", "typed-nil-event", "typed-list-error-differs", "typed-events-differ", "typed-nil-in-list", "typed-cache-differs",
+TYPED_CLASSES = {"typed-package-deviates", "typed-request-path", "typed-request-query", "typed-list-incomplete", "typed-request-count", "typed-client-crossed", "typed-readiness-differs", "typed-lifecycle-differs",
+                 "typed-returns-foreign-object", "typed-nil-event", "typed-list-error-differs", "typed-events-differ", "typed-clone-events-differ", "typed-nil-in-list", "typed-cache-differs",
                  "typed-monitor-nil-callback", "typed-monitor-differs", "typed-monitor-protocol", "typed-healthy-lost-events", "typed-stalled-not-first-buffer", "typed-leak", "typed-error", "crash"}
 
 
